@@ -23,7 +23,11 @@ import time
 VERIF = os.path.dirname(os.path.dirname(os.path.abspath(__file__)))
 REPO = os.environ.get("VERIF_REPO", "/repo")
 SPEC = os.path.join(VERIF, "spec")
-WORK = os.path.join(VERIF, ".work")
+# bin/seedtest runs checks against a patched scratch worktree: everything such a run writes (work files, replay
+# files, evidence) goes under VERIF_SCRATCH, so that it never collides with - or overwrites the evidence of - a
+# registered run on /repo
+OUTBASE = os.environ.get("VERIF_SCRATCH") or VERIF
+WORK = os.path.join(OUTBASE, ".work")
 TLAJAR = "/opt/veriftools/tla/tla2tools.jar:/opt/veriftools/tla/CommunityModules-deps.jar"
 NCPU = os.cpu_count() or 8
 
@@ -497,7 +501,7 @@ class Run:
         for name, keys in sorted(extn.items()):
             print("EXT-OBSERVATION (specified behaviour outside the listed properties; not a verdict): %s count=%d first_key=%s" % (name, len(keys), keys[0][:200]))
         self.cov["extension_rejects"] = {k: len(v_) for k, v_ in extn.items()}
-        replay_dir = os.path.join(VERIF, "out", "replay", self.pid)
+        replay_dir = os.path.join(OUTBASE, "out", "replay", self.pid)
         shutil.rmtree(replay_dir, ignore_errors=True)
         nviol = 0
         if violations:
@@ -548,8 +552,8 @@ class Run:
         ev = {"property_id": self.pid, "tier": self.tier, "seed": self.seed, "level": self.level,
               "coverage": cov, "assumptions": self.assumptions, "wall_s": round(time.time() - self.t0, 1),
               "violations": nviol}
-        os.makedirs(os.path.join(VERIF, "evidence"), exist_ok=True)
-        with open(os.path.join(VERIF, "evidence", self.pid + ".json"), "w", encoding="utf-8") as f:
+        os.makedirs(os.path.join(OUTBASE, "evidence"), exist_ok=True)
+        with open(os.path.join(OUTBASE, "evidence", self.pid + ".json"), "w", encoding="utf-8") as f:
             json.dump(ev, f, ensure_ascii=False, indent=1)
 
 
